@@ -654,4 +654,467 @@ def Gv.glyphVariationData (g : Gv) (gid : Nat) : R (Option TVD) :=
         | .trap => .trap
         | .ok p => .ok (some p)
 
+/-! ## `DeltaSetIndexMap` (variations.rs + the generated readers) -/
+
+/-- a successfully read `DeltaSetIndexMap` (format 0: `u16` count at 2, data at 4; format 1: `u32`
+count at 2, data at 6) -/
+structure Dsim where
+  d : List Nat
+  format : Nat
+  /-- start of `map_data` -/
+  hdr : Nat
+  /-- `map_data_byte_len` -/
+  mapLen : Nat
+  deriving Repr, DecidableEq
+
+/-- `EntryFormat::entry_size`: `((bits & 0x30) >> 4) + 1` -/
+def entrySize (ef : Nat) : Nat := ef / 16 % 4 + 1
+/-- `EntryFormat::bit_count`: `(bits & 0x0F) + 1` -/
+def bitCount (ef : Nat) : Nat := ef % 16 + 1
+
+/-- `EntryFormat::map_size(map_count)`: `entry_size as usize * map_count as usize` (unchecked) -/
+def mapSize (ef mc : Nat) : Option Nat := umul (entrySize ef) mc
+
+/-- generated `DeltaSetIndexMap::read`: `format = data.read_at::<u8>(0)?`, then the format's reader
+(`advance::<u8>`, `entry_format = read()?`, `map_count = read()?`,
+`map_size(..).checked_mul(1).ok_or(OutOfBounds)?`, `advance_by`, `finish`), else `InvalidFormat` -/
+def dsimRead (d : List Nat) : R Dsim :=
+  match readAt d 0 1 with
+  | none => .err .oob
+  | some fmt =>
+    if fmt = 0 ∨ fmt = 1 then
+      let cw := if fmt = 0 then 2 else 4
+      match readAt d 1 1, readAt d 2 cw with
+      | some ef, some mc =>
+        match mapSize ef mc with
+        | none => .trap
+        | some ms =>
+          match checkedMul ms 1 with
+          | none => .err .oob
+          | some len =>
+            if satAdd (2 + cw) len ≤ d.length then .ok ⟨d, fmt, 2 + cw, len⟩ else .err .oob
+      | _, _ => .err .oob
+    else .err (.invalidFormat fmt)
+
+/-- generated getters (`read_at(..).unwrap()`; `EntryFormat::from_raw` = `from_bits_truncate`: the
+two reserved bits are dropped) -/
+def Dsim.entryFormat (m : Dsim) : Option Nat := (readAt m.d 1 1).map (· % 64)
+def Dsim.mapCount (m : Dsim) : Option Nat := readAt m.d 2 (if m.format = 0 then 2 else 4)
+/-- `map_data()`: `self.data.read_array(range).unwrap()` with the range from an unchecked `start + len` -/
+def Dsim.mapData (m : Dsim) : Option (List Nat) :=
+  match uadd m.hdr m.mapLen with
+  | none => none
+  | some e =>
+    match HandRead.readArray m.d m.hdr e 1 with
+    | .ok n => some ((m.d.drop m.hdr).take n)
+    | .error _ => none
+
+/-- `DeltaSetIndexMap::get(index)`: `index.min(map_count.saturating_sub(1))`,
+`offset = index as usize * entry_size as usize`, the entry read (`?`), `outer = (entry >> bit_count) as
+u16`, `inner = (entry & ((1 << bit_count) - 1)) as u16`.  `ok (outer, inner)`. -/
+def Dsim.get (m : Dsim) (index : Nat) : R (Nat × Nat) :=
+  match m.entryFormat, m.mapCount, m.mapData with
+  | some ef, some mc, some data =>
+    let es := entrySize ef
+    let idx := min index (mc - 1)
+    match umul idx es with
+    | none => .trap
+    | some off =>
+      if 1 ≤ es ∧ es ≤ 4 then
+        match readAt data off es with
+        | none => .err .oob
+        | some entry =>
+          let bc := bitCount ef
+          -- `entry >> bit_count`, `1 << bit_count` on a `u32`: the shift amount must be below 32
+          if bc < 32 then
+            -- `(1 << bit_count) - 1`
+            if 2 ^ bc - 1 < 2 ^ bc then .ok (entry / 2 ^ bc % 65536, entry % 2 ^ bc % 65536) else .trap
+          else .trap
+      else .err .malformed
+  | _, _, _ => .trap
+
+/-! ## `ItemVariationStore` -/
+
+structure Ivs where
+  d : List Nat
+  /-- `item_variation_data_offsets_byte_len` -/
+  offsLen : Nat
+  deriving Repr, DecidableEq
+
+/-- generated `ItemVariationStore::read`: format (2), region list offset (4), `count = read()?`,
+`count.checked_mul(4)`, `advance_by`, `finish` -/
+def ivsRead (d : List Nat) : Option Ivs :=
+  match readAt d 6 2 with
+  | none => none
+  | some cnt =>
+    match checkedMul cnt 4 with
+    | none => none
+    | some ol => if satAdd 8 ol ≤ d.length then some ⟨d, ol⟩ else none
+
+/-- `ItemVariationData::delta_row_len(word_delta_count, region_index_count)` (all operators unchecked
+except the `saturating_sub`); `none` = overflow panic -/
+def deltaRowLen (wdc ric : Nat) : Option Nat :=
+  let long := decide (wdc / 32768 % 2 = 1)
+  let wordSize := if long then 4 else 2
+  let smallSize := if long then 2 else 1
+  let longCount := wdc % 32768
+  let shortCount := ric - longCount
+  match umul longCount wordSize, umul shortCount smallSize with
+  | some a, some b => uadd a b
+  | _, _ => none
+
+/-- `ItemVariationData::delta_sets_len(item_count, word_delta_count, region_index_count)`:
+`bytes_per_row * item_count as usize` (unchecked) -/
+def deltaSetsLen (ic wdc ric : Nat) : Option Nat :=
+  match deltaRowLen wdc ric with
+  | none => none
+  | some r => umul r ic
+
+/-- a successfully read `ItemVariationData` -/
+structure Ivd where
+  d : List Nat
+  /-- `region_indexes_byte_len` -/
+  riLen : Nat
+  /-- `delta_sets_byte_len` -/
+  dsLen : Nat
+  deriving Repr, DecidableEq
+
+/-- generated `ItemVariationData::read` -/
+def ivdRead (d : List Nat) : R Ivd :=
+  match readAt d 0 2, readAt d 2 2, readAt d 4 2 with
+  | some ic, some wdc, some ric =>
+    match checkedMul ric 2 with
+    | none => .err .oob
+    | some ril =>
+      match deltaSetsLen ic wdc ric with
+      | none => .trap
+      | some n =>
+        match checkedMul n 1 with
+        | none => .err .oob
+        | some dsl =>
+          if satAdd (satAdd 6 ril) dsl ≤ d.length then .ok ⟨d, ril, dsl⟩ else .err .oob
+  | _, _, _ => .err .oob
+
+def Ivd.wordDeltaCount (v : Ivd) : Option Nat := readAt v.d 2 2
+def Ivd.regionIndexCount (v : Ivd) : Option Nat := readAt v.d 4 2
+/-- `region_indexes()`: `read_array(6..6 + len).unwrap()`, as the list of values -/
+def Ivd.regionIndexes (v : Ivd) : Option (List Nat) :=
+  match uadd 6 v.riLen with
+  | none => none
+  | some e =>
+    match HandRead.readArray v.d 6 e 2 with
+    | .ok n => some ((List.range n).map (fun i => HandRead.beAt v.d (6 + 2 * i) 2))
+    | .error _ => none
+/-- `delta_sets()`: `read_array(start..start + len).unwrap()` -/
+def Ivd.deltaSets (v : Ivd) : Option (List Nat) :=
+  match uadd 6 v.riLen with
+  | none => none
+  | some s =>
+    match uadd s v.dsLen with
+    | none => none
+    | some e =>
+      match HandRead.readArray v.d s e 1 with
+      | .ok n => some ((v.d.drop s).take n)
+      | .error _ => none
+
+/-- `ItemDeltas::next` collected: `if pos >= len { None }`, `pos += 1` (`u16`, unchecked), the column
+width by `(pos >= word_delta_count, long_words)`, `cursor.read().ok()?`.  `none` = overflow panic.
+Structural on the fuel `len - pos`. -/
+def itemDeltasGo (wdcLow : Nat) (long : Bool) (len : Nat) : Nat → Nat → List Nat → Option (List Int)
+  | 0, _, _ => some []
+  | fuel + 1, pos, bytes =>
+    if pos ≥ len then some []
+    else if pos + 1 > 65535 then none
+    else
+      match Tent.readW (Tent.colWidth wdcLow long pos) bytes with
+      | none => some []
+      | some (v, rest) => (itemDeltasGo wdcLow long len fuel (pos + 1) rest).map (v :: ·)
+
+/-- `ItemVariationData::delta_set(inner_index).collect()`: `offset = bytes_per_row * inner_index as
+usize` (unchecked), `FontData::new(delta_sets()).slice(offset..).unwrap_or_default()` -/
+def Ivd.deltaSet (v : Ivd) (inner : Nat) : Option (List Int) :=
+  match v.wordDeltaCount, v.regionIndexCount, v.deltaSets with
+  | some wdc, some ric, some ds =>
+    match deltaRowLen wdc ric with
+    | none => none
+    | some row =>
+      match umul row inner with
+      | none => none
+      | some off =>
+        let sliced := if off ≤ ds.length then ds.drop off else []
+        itemDeltasGo (wdc % 32768) (decide (wdc / 32768 % 2 = 1)) ric ric 0 sliced
+  | _, _, _ => none
+
+/-- the `(start, peak, end)` `F2Dot14` triples of the `n` `RegionAxisCoordinates` records at `a` -/
+def regionAxes (d : List Nat) (a n : Nat) : List (Int × Int × Int) :=
+  (List.range n).map (fun i =>
+    (toI16 (HandRead.beAt d (a + 6 * i) 2), toI16 (HandRead.beAt d (a + 6 * i + 2) 2),
+     toI16 (HandRead.beAt d (a + 6 * i + 4) 2)))
+
+/-- a successfully read `VariationRegionList` with its `ComputedArray<VariationRegion>` -/
+structure Vrl where
+  d : List Nat
+  /-- `variation_regions_byte_len` -/
+  regLen : Nat
+  deriving Repr, DecidableEq
+
+/-- `ItemVariationStore::variation_region_list()`: non-nullable `Offset32` at 2, generated
+`VariationRegionList::read` (`axis_count`, `region_count`,
+`region_count.checked_mul(axis_count.checked_mul(6)?)`, `advance_by`, `finish`) -/
+def Ivs.regionList (s : Ivs) : R Vrl :=
+  match readAt s.d 2 4 with
+  | none => .trap
+  | some off =>
+    match resolveData s.d off with
+    | .err e => .err e
+    | .trap => .trap
+    | .ok data =>
+      match readAt data 0 2, readAt data 2 2 with
+      | some ac, some rc =>
+        match checkedMul ac 6 with
+        | none => .err .oob
+        | some sz =>
+          match checkedMul rc sz with
+          | none => .err .oob
+          | some len => if satAdd 4 len ≤ data.length then .ok ⟨data, len⟩ else .err .oob
+      | _, _ => .err .oob
+
+def Vrl.axisCount (r : Vrl) : Option Nat := readAt r.d 0 2
+
+/-- `variation_regions().get(idx)`: `ComputedArray<VariationRegion>` over the `regLen` bytes at 4, items
+of `6 * axis_count` bytes; `VariationRegion::read_with_args` = `cursor.read_array(axis_count)` -/
+def Vrl.region (r : Vrl) (idx : Nat) : R (List (Int × Int × Int)) :=
+  match r.axisCount, uadd 4 r.regLen with
+  | some ac, some e =>
+    match sliceExcl r.d 4 e with
+    | none => .trap
+    | some _ =>
+      match compGet r.regLen (6 * ac) idx with
+      | none => .err .oob
+      | some off => .ok (regionAxes r.d (4 + off) ac)
+  | _, _ => .trap
+
+/-- `item_variation_data().get(outer)`: `ArrayOfNullableOffsets::get` —
+`offsets.get(idx)` missing → `Some(Err(InvalidCollectionIndex))`, a null offset → `None`, else
+`resolve` + `ItemVariationData::read`.  `ok none` = Rust `None`. -/
+def Ivs.itemData (s : Ivs) (outer : Nat) : R (Option Ivd) :=
+  match uadd 8 s.offsLen with
+  | none => .trap
+  | some e =>
+    match HandRead.readArray s.d 8 e 4 with
+    | .error _ => .trap
+    | .ok n =>
+      if outer < n then
+        let off := HandRead.beAt s.d (8 + 4 * outer) 4
+        if off = 0 then .ok none
+        else if off ≤ s.d.length then
+          match ivdRead (s.d.drop off) with
+          | .ok v => .ok (some v)
+          | .err e => .err e
+          | .trap => .trap
+        else .err .oob
+      else .err (.invalidIndex outer)
+
+/-- the body of the `for (i, region_delta) in data.delta_set(inner).enumerate()` loop without the
+arithmetic: pairs every delta with the axes of its region.
+`region_indices.get(i).ok_or(MalformedData)?`, `regions.get(region_index)?` -/
+def deltaRegions (r : Vrl) : List Int → List Nat → R (List (Int × List (Int × Int × Int)))
+  | [], _ => .ok []
+  | _ :: _, [] => .err .malformed
+  | dl :: ds, ri :: ris =>
+    match r.region ri with
+    | .err e => .err e
+    | .trap => .trap
+    | .ok axes =>
+      match deltaRegions r ds ris with
+      | .ok rest => .ok ((dl, axes) :: rest)
+      | .err e => .err e
+      | .trap => .trap
+
+/-- the part of `compute_delta` / `compute_float_delta` in front of the arithmetic: `ok none` = the
+early `Ok(0)` (no coordinates / null subtable offset) -/
+def Ivs.deltaWalk (s : Ivs) (outer inner : Nat) (coordsEmpty : Bool) :
+    R (Option (List (Int × List (Int × Int × Int)))) :=
+  if coordsEmpty then .ok none
+  else
+    match s.itemData outer with
+    | .err e => .err e
+    | .trap => .trap
+    | .ok none => .ok none
+    | .ok (some v) =>
+      match s.regionList with
+      | .err e => .err e
+      | .trap => .trap
+      | .ok rl =>
+        match v.regionIndexes, v.deltaSet inner with
+        | some ris, some ds =>
+          match deltaRegions rl ds ris with
+          | .ok l => .ok (some l)
+          | .err e => .err e
+          | .trap => .trap
+        | _, _ => .trap
+
+/-- `ItemVariationStore::compute_delta(index, coords)`: the walk, then C20's kernel
+`Checked.computeDelta` (`VariationRegion::compute_scalar` per region, the `i64` accumulation and the
+final rounding; `none` = arithmetic trap) -/
+def Ivs.computeDelta (s : Ivs) (outer inner : Nat) (coords : List Int) : R Int :=
+  match s.deltaWalk outer inner coords.isEmpty with
+  | .err e => .err e
+  | .trap => .trap
+  | .ok none => .ok 0
+  | .ok (some l) => unwrapR (Checked.computeDelta (l.map (fun x => (x.2, x.1))) coords)
+
+/-- `ItemVariationStore::compute_float_delta`: the same walk; the `f32` / `f64` arithmetic cannot trap
+and is not rendered -/
+def Ivs.computeFloatDelta (s : Ivs) (outer inner : Nat) (coords : List Int) : R Unit :=
+  match s.deltaWalk outer inner coords.isEmpty with
+  | .err e => .err e
+  | .trap => .trap
+  | .ok _ => .ok ()
+
+/-! ## `advance_delta`, `item_delta` (variations.rs), `Hvar`, `Vvar` (hvar.rs, vvar.rs) -/
+
+/-- `Nullable<Offset32>::resolve::<DeltaSetIndexMap>`: `none` = null offset -/
+def resolveDsim (d : List Nat) (off : Nat) : Option (R Dsim) :=
+  if off = 0 then none
+  else if off ≤ d.length then some (dsimRead (d.drop off)) else some (.err .oob)
+
+/-- `Offset32::resolve::<ItemVariationStore>` -/
+def resolveIvs (d : List Nat) (off : Nat) : R Ivs :=
+  match resolveData d off with
+  | .err e => .err e
+  | .trap => .trap
+  | .ok data => okOr .oob (ivsRead data)
+
+/-- `Fixed::from_i32(ivs?.compute_delta(ix, coords)?)` -/
+def deltaAsFixed (ivs : R Ivs) (ix : Nat × Nat) (coords : List Int) : R Int :=
+  match ivs with
+  | .err e => .err e
+  | .trap => .trap
+  | .ok s =>
+    match s.computeDelta ix.1 ix.2 coords with
+    | .err e => .err e
+    | .trap => .trap
+    | .ok v => unwrapR (Checked.fxFromI32 v)
+
+/-- `variations::advance_delta(dsim, ivs, glyph_id, coords)`: without a (readable) map the index is
+`{ outer: 0, inner: gid as u16 }` -/
+def advanceDelta (dsim : Option (R Dsim)) (ivs : R Ivs) (gid : Nat) (coords : List Int) : R Int :=
+  match dsim, ivs with
+  | some .trap, _ => .trap
+  | _, .trap => .trap
+  | _, _ =>
+    if coords.isEmpty then .ok 0
+    else
+      match dsim with
+      | some (.ok m) =>
+        match m.get gid with
+        | .err e => .err e
+        | .trap => .trap
+        | .ok ix => deltaAsFixed ivs ix coords
+      | _ => deltaAsFixed ivs (0, gid % 65536) coords
+
+/-- `variations::item_delta`: without a (readable) map `Err(NullOffset)` -/
+def itemDelta (dsim : Option (R Dsim)) (ivs : R Ivs) (gid : Nat) (coords : List Int) : R Int :=
+  match dsim, ivs with
+  | some .trap, _ => .trap
+  | _, .trap => .trap
+  | _, _ =>
+    if coords.isEmpty then .ok 0
+    else
+      match dsim with
+      | some (.ok m) =>
+        match m.get gid with
+        | .err e => .err e
+        | .trap => .trap
+        | .ok ix => deltaAsFixed ivs ix coords
+      | _ => .err .nullOffset
+
+/-- `Hvar::{advance_width_delta, lsb_delta, rsb_delta}` (`which` = 0, 1, 2) and
+`Vvar::{advance_height_delta, tsb_delta, bsb_delta, v_org_delta}` (`vvar`, `which` = 0..3) on a table
+that was read successfully (`20` / `24` header bytes): the store offset at 4, the map offsets from 8;
+the getters are `read_at(..).unwrap()` -/
+def metricsDelta (d : List Nat) (vvar : Bool) (which gid : Nat) (coords : List Int) : R Int :=
+  if d.length < (if vvar then 24 else 20) then .err .oob
+  else
+    match readAt d 4 4, readAt d (8 + 4 * which) 4 with
+    | some so, some mo =>
+      if which = 0 then advanceDelta (resolveDsim d mo) (resolveIvs d so) gid coords
+      else itemDelta (resolveDsim d mo) (resolveIvs d so) gid coords
+    | _, _ => .trap
+
+/-! ## `Mvar::metric_delta` (mvar.rs) -/
+
+/-- the `while lo < hi` binary search over `value_records()` (`tags` = the records' `value_tag`s as
+`u32`s): `i = (lo + hi) / 2` (unchecked `+`), `&records[i]` (an index panic is `trap`), `hi = i` /
+`lo = i + 1`.  `ok (some i)` = found at `i`, `ok none` = `MetricIsMissing`; fuel = the array length + 1. -/
+def mvarSearch (tags : List Nat) (tag : Nat) : Nat → Nat → Nat → R (Option Nat)
+  | 0, _, _ => .trap
+  | fuel + 1, lo, hi =>
+    if lo < hi then
+      match uadd lo hi with
+      | none => .trap
+      | some sum =>
+        let i := sum / 2
+        match tags[i]? with
+        | none => .trap
+        | some t =>
+          if tag < t then mvarSearch tags tag fuel lo i
+          else if tag > t then
+            match uadd i 1 with
+            | none => .trap
+            | some lo' => mvarSearch tags tag fuel lo' hi
+          else .ok (some i)
+    else .ok none
+
+/-- `Mvar::read` + `Mvar::metric_delta(tag, coords)`: 12 header bytes, `count` records of 8 bytes
+(`value_records()` = `read_array(12..12 + 8·count).unwrap()`), the search, then
+`item_variation_store().ok_or(NullOffset)??` (`Nullable<Offset16>` at 10) and `compute_delta` with the
+record's outer / inner index -/
+def mvarMetricDelta (d : List Nat) (tag : Nat) (coords : List Int) : R Int :=
+  match readAt d 8 2 with
+  | none => .err .oob
+  | some count =>
+    match checkedMul count 8 with
+    | none => .err .oob
+    | some len =>
+      if satAdd 12 len ≤ d.length then
+        match uadd 12 len with
+        | none => .trap
+        | some e =>
+          match HandRead.readArray d 12 e 8 with
+          | .error _ => .trap
+          | .ok n =>
+            let tags := (List.range n).map (fun i => HandRead.beAt d (12 + 8 * i) 4)
+            match mvarSearch tags tag (n + 1) 0 n with
+            | .trap => .trap
+            | .err e => .err e
+            | .ok none => .err .metricMissing
+            | .ok (some i) =>
+              match readAt d 10 2 with
+              | none => .trap
+              | some so =>
+                if so = 0 then .err .nullOffset
+                else
+                  let ivs : R Ivs := if so ≤ d.length then okOr .oob (ivsRead (d.drop so)) else .err .oob
+                  deltaAsFixed ivs (HandRead.beAt d (12 + 8 * i + 4) 2, HandRead.beAt d (12 + 8 * i + 6) 2) coords
+      else .err .oob
+
+/-! ## `SegmentMaps` (avar.rs) -/
+
+/-- `SegmentMaps::read` (`position_map_count = cursor.read_be()?`,
+`cursor.read_array::<AxisValueMap>(count)?`) + `SegmentMaps::apply(coord)`: the loop over the
+`(from, to)` records is C20's `Checked.avarApply` (`none` = arithmetic trap); `coord` and the result are
+`Fixed` bits -/
+def segmentMapsApply (d : List Nat) (coord : Int) : R Int :=
+  match readAt d 0 2 with
+  | none => .err .oob
+  | some count =>
+    match (Cur.readArray d ⟨2⟩ count 4).1 with
+    | .error _ => .err .oob
+    | .ok n =>
+      let maps := (List.range n).map (fun i =>
+        (toI16 (HandRead.beAt d (2 + 4 * i) 2), toI16 (HandRead.beAt d (2 + 4 * i + 2) 2)))
+      unwrapR (Checked.avarApply maps coord)
+
 end FontVerif.HandVar
